@@ -96,7 +96,44 @@ def units():
     U.fn("seq3_begin", ensures={"begin_is_index_zero": "RET.current_index == 0 && RET.dims.dims.x == $0->dims.x && RET.dims.dims.y == $0->dims.y && RET.dims.dims.z == $0->dims.z"})
     U.fn("seq3_dimensions", ensures={"dimensions_returns_extent": "RET.x == $0->dims.x && RET.y == $0->dims.y && RET.z == $0->dims.z"})
     U.fn("seq3_ctor", assigns=["*$0"], noalias=True, ensures={"ctor_stores_extent": "$0->dims.x == $1->x && $0->dims.y == $1->y && $0->dims.z == $1->z"})
-    return [U, adaptors_unit()]
+    return [U, adaptors_unit(), foreach_unit()]
+
+
+FSTUBS = """
+/* probe functor: visits must arrive in flattened order over the region [g_lo, g_hi) (x fastest, then y, then z), each coordinate
+ * exactly once: the expected next coordinate is kept in ghost state (no division needed) */
+vec3i g_lo, g_hi, g_next; long g_k;
+void visit_call(Visit *self, vec3i *c)
+{
+  __CPROVER_assert(g_hi.x > g_lo.x && g_hi.y > g_lo.y && g_hi.z > g_lo.z, "VISIT the functor is only called for a non-empty region");
+  __CPROVER_assert(g_next.z < g_hi.z, "VISIT no coordinate is visited after the last one of the region");
+  __CPROVER_assert(c->x == g_next.x && c->y == g_next.y && c->z == g_next.z, "VISIT coordinates arrive in flattened order, each exactly once");
+  g_k++;
+  g_next.x++;
+  if (g_next.x >= g_hi.x) { g_next.x = g_lo.x; g_next.y++; if (g_next.y >= g_hi.y) { g_next.y = g_lo.y; g_next.z++; } }
+}
+"""
+
+
+def foreach_unit():
+    """array3D::for_each visits every coordinate of the region exactly once, in flattened order -- BOUNDED (extents of at most 3 per axis)"""
+    F = Unit("c17_foreach", "units/c17_foreach.cpp", stubs=FSTUBS, opts=dict(stub_bodies=["visit_call"]))
+    F.stub("Visit::operator()", "probe functor: asserts the visiting order and counts the visits")
+    EXT = 3
+    CNT = "((g_hi.x > g_lo.x && g_hi.y > g_lo.y && g_hi.z > g_lo.z) ? ((long)g_hi.x - g_lo.x) * ((long)g_hi.y - g_lo.y) * ((long)g_hi.z - g_lo.z) : 0l)"
+    def small(v):
+        return "%s.x >= -3 && %s.x <= 3 && %s.y >= -3 && %s.y <= 3 && %s.z >= -3 && %s.z <= 3" % (v, v, v, v, v, v)
+    def ext(lo, hi):
+        return "%s.x - %s.x <= %d && %s.y - %s.y <= %d && %s.z - %s.z <= %d" % (hi, lo, EXT, hi, lo, EXT, hi, lo, EXT)
+    GEQ = "g_lo.x == %s.x && g_lo.y == %s.y && g_lo.z == %s.z && g_hi.x == %s.x && g_hi.y == %s.y && g_hi.z == %s.z"
+    acc = dict(unwind=EXT + 2, timeout=600, assigns=["g_k", "g_next", "__verif_exc"], solver=["--sat-solver", "cadical"])
+    ENS = {"every_coordinate_of_the_region_is_visited_exactly_once_in_flattened_order": "__verif_exc == 0 && g_k == %s" % CNT}
+    F.fn("fe_range", pre_call="  g_k = 0; g_lo = o_@0; g_hi = o_@1; g_next = g_lo;\n", requires=["g_k == 0", "g_next.x == g_lo.x && g_next.y == g_lo.y && g_next.z == g_lo.z", "__verif_exc == 0", small("(*$0)"), small("(*$1)"), ext("(*$0)", "(*$1)"), GEQ % (("(*$0)",) * 3 + ("(*$1)",) * 3)], ensures=ENS, **acc)
+    F.fn("fe_size", pre_call="  g_k = 0; g_lo.x = 0; g_lo.y = 0; g_lo.z = 0; g_hi = o_@0; g_next = g_lo;\n", requires=["g_k == 0", "g_next.x == g_lo.x && g_next.y == g_lo.y && g_next.z == g_lo.z", "__verif_exc == 0", small("(*$0)"), "g_lo.x == 0 && g_lo.y == 0 && g_lo.z == 0 && g_hi.x == $0->x && g_hi.y == $0->y && g_hi.z == $0->z"],
+         inline=["fe_range"], ensures=ENS, **acc)
+    F.fn("fe_box", pre_call="  g_k = 0; g_lo = o_@0.lower; g_hi = o_@0.upper; g_next = g_lo;\n", requires=["g_k == 0", "g_next.x == g_lo.x && g_next.y == g_lo.y && g_next.z == g_lo.z", "__verif_exc == 0", small("$0->lower"), small("$0->upper"), ext("$0->lower", "$0->upper"), GEQ % (("$0->lower",) * 3 + ("$0->upper",) * 3)],
+         inline=["fe_range"], ensures=ENS, **acc)
+    return F
 
 
 ASTUBS = """
@@ -143,9 +180,10 @@ def adaptors_unit():
 
 META = dict(
     level="proof",
-    level_text="flatten/reshape (2-D, 3-D) and longIndex/coordsOf are proved mutually inverse on coordinates inside the extent and on [0,total), flatten < total, for EVERY extent (unbounded, z3 over the integers on VCs generated from the extracted code), together with the obligation that every intermediate value and every conversion fits its machine type (so machine arithmetic equals mathematical arithmetic: 'computed in 64 bits without overflow' is itself proved, and e.g. a 32-bit temporary for a row number is refuted). Iterator operations (++, ==, jump_to, current, begin, dimensions) have bit-precise CBMC contracts. The shifted, sub-box, accessor and multi-slice adaptors (unit c17_adaptors) are proved, against a recording interface stub of the underlying Array3D, to ask exactly one underlying array for exactly the cell their definition names (shift wrapped into the extent; offset by the box origin; same cell with value conversion; cell (x,y,0) of the slice selected by the clamped z) and to return its value.",
+    level_text="flatten/reshape (2-D, 3-D) and longIndex/coordsOf are proved mutually inverse on coordinates inside the extent and on [0,total), flatten < total, for EVERY extent (unbounded, z3 over the integers on VCs generated from the extracted code), together with the obligation that every intermediate value and every conversion fits its machine type (so machine arithmetic equals mathematical arithmetic: 'computed in 64 bits without overflow' is itself proved, and e.g. a 32-bit temporary for a row number is refuted). Iterator operations (++, ==, jump_to, current, begin, dimensions) have bit-precise CBMC contracts. The shifted, sub-box, accessor and multi-slice adaptors (unit c17_adaptors) are proved, against a recording interface stub of the underlying Array3D, to ask exactly one underlying array for exactly the cell their definition names (shift wrapped into the extent; offset by the box origin; same cell with value conversion; cell (x,y,0) of the slice selected by the clamped z) and to return its value. array3D::for_each (range, size and box forms; unit c17_foreach) is checked, BOUNDED to extents of at most 3 per axis, against a probe functor: every coordinate of the region is visited exactly once, in flattened order (x fastest), and nothing outside it.",
     level_note="Trusted: clang AST, cxx2c, mathvc evaluator, z3; CBMC for the iterator contracts. NOT yet under contract: for_each loops / iteration order, ActualArray3D get/set memory access, the shifted / sub-box / accessor / multi-slice adaptors (virtual dispatch through shared_ptr) and getValueRange.",
     assumptions=["extent with total < 2^64 (multidim_index_sequence), positive int extents (array3D)"],
-    unverified=["for_each visiting order and exactly-once", "ActualArray3D::get/set cell contents", "Array3DRepeater (mirrored repetition; not named by the property)", "adaptor numElements", "getValueRange"],
+    bounded=["for_each (unit c17_foreach): region extents of at most 3 per axis, coordinates in [-3,3], unwind 5"],
+    unverified=["ActualArray3D::get/set cell contents", "Array3DRepeater (mirrored repetition; not named by the property)", "adaptor numElements", "getValueRange"],
     trusted_extra=["lib/mathvc.py symbolic evaluator", "z3 5.1.0"],
 )
